@@ -13,7 +13,7 @@ CHECKS = {
          "Trusts the documented cycle table of the reference (cross-checked against instruction_metadata.go and the ROMs' own verdicts); HALT/STOP excluded (C05/C01).",
          "DESIGN.md §4 C02"),
  "C03": ("per-cycle memory observation: write cycle by read-back after every machine cycle, read cycle by substituting the addressed byte during exactly one cycle; oracle = access schedule of the reference model",
-         "Every memory-accessing opcode (incl. CB (HL) forms, conditional taken/not taken) x five location classes x 16 flag nibbles: each data write is timed by per-cycle read-back, each data read by per-cycle value substitution; exactly one cycle must respond and it must be the documented one. The mem_timing and mooneye *_timing ROM verdicts are regression-checked.",
+         "Every memory-accessing opcode (incl. CB (HL) forms, conditional taken/not taken) x five location classes (plus, for the single-byte load/store forms, 23 I/O registers that read back what was stored) x 16 flag nibbles: each data write is timed by per-cycle read-back, each data read by per-cycle value substitution; exactly one cycle must respond and it must be the documented one. The mem_timing and mooneye *_timing ROM verdicts are regression-checked.",
          "Trusts the documented access schedule in internal/ref; pokes through Mapper.Write between CPU cycles stand for hardware changing memory between cycles.",
          "DESIGN.md §4 C03"),
  "C04": ("lock-step trace monitor with a reference interrupt controller; exhaustive IME x IE x IF boundary states, all short instruction sequences with requests injected at every machine-cycle offset, generated programs and interrupt ROMs",
@@ -85,11 +85,11 @@ CHECKS = {
          "Grid phase across power-off not asserted; fake PortAudio runs the real Speakers.Callback on its own goroutine.",
          "DESIGN.md §4 C20"),
  "C21": ("waveform-step timing by interval intersection at machine-cycle resolution for every frequency / NR43 value; LFSR output compared with the maximal sequence",
-         "All 2048 frequencies on channels 1-3 and all 224 NR43 values with s <= 13 are timed over runs of consecutive steps (a period off by one clock is refuted within a few steps); the LFSR output bits are compared with the 15-bit / 7-bit maximal sequences, with full periods observed for the fast settings.",
+         "All 2048 frequencies on channels 1-3 and all 224 NR43 values with s <= 13 are timed over runs of consecutive steps (a period off by one clock is refuted within a few steps); the LFSR output bits are compared with the 15-bit / 7-bit maximal sequences, with full periods observed for the fast settings. Under the frequency sweep the observed frequencies must walk the reference sequence in order and in time, and the one step interval straddling an update must lie between the periods before and after it.",
          "Positions and LFSR observed through the audio hook; steady state only.",
          "DESIGN.md §4 C21"),
  "C22": ("reference-model monitor over the complete reachable controller state space (BFS), real Controller driven through Mapper FF00",
-         "Every transition of the reachable joypad state space (576 states x 272 events) is executed on the real controller and JOYP compared with a 10-line reference under all four select values; exhaustive for the finite space, so the residual risk is the reference itself.",
+         "Every transition of the reachable joypad state space (576 states x 272 events) is executed on the real controller and JOYP compared with a 10-line reference under all four select values; exhaustive for the finite space, so the residual risk is the reference itself and hidden state outside that space: against the latter, runs of 1..1100 (thorough 70000) changes between two reads, same-value stores to 25 other addresses directly before a JOYP store, press/release sequences, long batches and select-line streams are judged too.",
          "Trusts the reference joypad (held sets, active-low, AND of selected groups) as the reading of the statement.",
          "DESIGN.md §4 C22"),
 }
